@@ -39,3 +39,23 @@ PROPS = {
         ),
     ),
 }
+
+
+def _merge_bounded():
+    """bounded/*.py modules contribute REGISTER = {pid: dict(extra=[hook], assumptions=[..], level=.., manifest={..})}."""
+    import importlib
+    import os
+    import pkgutil
+
+    here = os.path.join(os.path.dirname(os.path.abspath(__file__)), "bounded")
+    for m in sorted(pkgutil.iter_modules([here])):
+        mod = importlib.import_module("bounded." + m.name)
+        for pid, d in getattr(mod, "REGISTER", {}).items():
+            if pid in PROPS:
+                PROPS[pid].setdefault("extra", []).extend(d.get("extra", []))
+                PROPS[pid].setdefault("assumptions", []).extend(d.get("assumptions", []))
+            else:
+                PROPS[pid] = dict(d)
+
+
+_merge_bounded()
